@@ -54,10 +54,27 @@ func VerifC14Include() {
 	diskSrc := "D[{{ v }}{{ s }}{{ q }}]"
 	cacheSrc := "C[{{ v }}{{ q }}{{ s }}]"
 	e := NewEngine()
-	state := nd.Choice(11)
+	state := nd.Choice(15)
 	want := ""
 	wantErr := false
 	switch state {
+	case 11: // an empty source is a source: registered alone it is what gets included
+		_, err := e.ParseTemplateAndCache([]byte(""), target, 1)
+		nd.Assert(err == nil, "cache-parse")
+		want = ""
+	case 12: // and registered over an earlier one it replaces it
+		_, err := e.ParseTemplateAndCache([]byte(cacheSrc), target, 1)
+		nd.Assert(err == nil, "cache-parse")
+		_, err = e.ParseTemplateAndCache(nil, target, 1)
+		nd.Assert(err == nil, "cache-parse-again")
+		want = ""
+	case 13: // content that begins with a byte order mark (or another invisible character) is inserted as it is
+		want = []string{"\ufeff", "\u200b", "\x00"}[nd.Choice(3)] + diskSrc
+		nd.SetFile(target, want, 0)
+	case 14:
+		want = "\ufeff" + cacheSrc + "\ufeff"
+		_, err := e.ParseTemplateAndCache([]byte(want), target, 1)
+		nd.Assert(err == nil, "cache-parse")
 	case 0: // on disk only
 		nd.SetFile(target, diskSrc, 0)
 		want = diskSrc
